@@ -8,7 +8,7 @@ from props.c02 import bits
 import dbutil
 
 PROPS = ('GambitV.Props.C11', 'GambitV.C11')
-TIE = [('GambitV.Tie.PyCsvColumns', 'GambitV.Tie.Py')]
+TIE = [('GambitV.Tie.PyCsvColumns', 'GambitV.Tie.Py'), ('GambitV.Tie.PyGetattr', 'GambitV.Tie.Py')]
 RULE = ('result sets from real queries (default and strict) on scratch databases whose taxon names / genome descriptions / query labels contain commas, '
         'quotes, LF, CRLF, non-ASCII text; with no-prediction items, unreportable predicted taxa, failed strict results with warnings, inputs without a source '
         'file. CSV: text = Lean writeCsv of the rows built from the attributes of the real result objects, and it parses back (Lean reader, cross-checked '
